@@ -19,42 +19,42 @@ use out::ToOut;
 use serde_json::{json, Value as J};
 use std::io::{BufRead, Write};
 
-/// A user error type with its own HTTP response (422, "custom: <message>"): the extractors must hand back
-/// exactly this response when deserr rejects the document.
+/// A user error type with its own HTTP response (status S - 422, or 200 for an "error envelope" answered as a
+/// success - and "custom: <message>"): the extractors must hand back exactly this response when deserr rejects the document.
 #[derive(Debug)]
-pub struct CErr(pub JsonError);
-impl std::fmt::Display for CErr {
+pub struct CErr<const S: u16 = 422>(pub JsonError);
+impl<const S: u16> std::fmt::Display for CErr<S> {
     fn fmt(&self, f: &mut std::fmt::Formatter<'_>) -> std::fmt::Result {
         write!(f, "custom: {}", self.0)
     }
 }
-impl deserr::DeserializeError for CErr {
+impl<const S: u16> deserr::DeserializeError for CErr<S> {
     fn error<V: deserr::IntoValue>(_self_: Option<Self>, error: deserr::ErrorKind<V>, location: deserr::ValuePointerRef) -> std::ops::ControlFlow<Self, Self> {
         match <JsonError as deserr::DeserializeError>::error::<V>(None, error, location) {
             std::ops::ControlFlow::Break(e) | std::ops::ControlFlow::Continue(e) => std::ops::ControlFlow::Break(CErr(e)),
         }
     }
 }
-impl deserr::MergeWithError<CErr> for CErr {
-    fn merge(_self_: Option<Self>, other: CErr, _loc: deserr::ValuePointerRef) -> std::ops::ControlFlow<Self, Self> {
+impl<const S: u16> deserr::MergeWithError<CErr<S>> for CErr<S> {
+    fn merge(_self_: Option<Self>, other: CErr<S>, _loc: deserr::ValuePointerRef) -> std::ops::ControlFlow<Self, Self> {
         std::ops::ControlFlow::Break(other)
     }
 }
-impl deserr::MergeWithError<rec::UErr> for CErr {
+impl<const S: u16> deserr::MergeWithError<rec::UErr> for CErr<S> {
     fn merge(_self_: Option<Self>, other: rec::UErr, loc: deserr::ValuePointerRef) -> std::ops::ControlFlow<Self, Self> {
         match <JsonError as deserr::MergeWithError<rec::UErr>>::merge(None, other, loc) {
             std::ops::ControlFlow::Break(e) | std::ops::ControlFlow::Continue(e) => std::ops::ControlFlow::Break(CErr(e)),
         }
     }
 }
-impl axum::response::IntoResponse for CErr {
+impl<const S: u16> axum::response::IntoResponse for CErr<S> {
     fn into_response(self) -> axum::response::Response {
-        (http::StatusCode::UNPROCESSABLE_ENTITY, self.to_string()).into_response()
+        (http::StatusCode::from_u16(S).unwrap(), self.to_string()).into_response()
     }
 }
-impl actix_web::ResponseError for CErr {
+impl<const S: u16> actix_web::ResponseError for CErr<S> {
     fn status_code(&self) -> actix_web::http::StatusCode {
-        actix_web::http::StatusCode::UNPROCESSABLE_ENTITY
+        actix_web::http::StatusCode::from_u16(S).unwrap()
     }
     fn error_response(&self) -> actix_web::HttpResponse<actix_web::body::BoxBody> {
         actix_web::HttpResponseBuilder::new(self.status_code()).content_type("text/plain").body(self.to_string())
@@ -115,7 +115,7 @@ fn doc_json(j: &J) -> J {
     json!({"doc": ov::ov_to_wire(&ov::ov_of_json(j))})
 }
 
-pub fn run_http<T: Deserr<JsonError> + Deserr<CErr> + ToOut + 'static>(r: &Req) -> J {
+pub fn run_http<T: Deserr<JsonError> + Deserr<CErr<422>> + Deserr<CErr<200>> + ToOut + 'static>(r: &Req) -> J {
     use actix_web::FromRequest as _;
     use axum::extract::FromRequest as _;
     use axum::response::IntoResponse as _;
@@ -163,8 +163,18 @@ pub fn run_http<T: Deserr<JsonError> + Deserr<CErr> + ToOut + 'static>(r: &Req) 
         Ok(x) => json!({"ok": x.into_inner().to_out()}),
         Err(e) => axum_resp(e.into_response()),
     };
+    // ... and with one that answers its errors with a success status (an error envelope)
+    let (req, mut pl) = actix_parts(r);
+    let ex_actix_c200 = match block_on(AwebJson::<T, CErr<200>>::from_request(&req, &mut pl)) {
+        Ok(x) => json!({"ok": x.into_inner().to_out()}),
+        Err(e) => actix_err(e),
+    };
+    let ex_axum_c200 = match block_on(AxumJson::<T, CErr<200>>::from_request(axum_req(r), &())) {
+        Ok(x) => json!({"ok": x.into_inner().to_out()}),
+        Err(e) => axum_resp(e.into_response()),
+    };
     json!({"fw_actix": fw_actix, "ex_actix": ex_actix, "fw_query": fw_query, "ex_query": ex_query,
-           "ex_query_req": ex_query_req, "fw_axum": fw_axum, "ex_axum": ex_axum, "ex_actix_c": ex_actix_c, "ex_axum_c": ex_axum_c})
+           "ex_query_req": ex_query_req, "fw_axum": fw_axum, "ex_axum": ex_axum, "ex_actix_c": ex_actix_c, "ex_axum_c": ex_axum_c, "ex_actix_c200": ex_actix_c200, "ex_axum_c200": ex_axum_c200})
 }
 
 fn main() {
